@@ -7,8 +7,12 @@ callback, an untimed switch handler, a timed switch handler (the last three exer
 sites of delays.py / switch_controller.py); posting from inside handlers and callbacks happens in every tree.
 Model side: MpfVerif.Model.EventBus (literal stack-of-deques loop) through the compiled driver.
 Oracle (model independent): a recursive reference interpreter (depth-first pre-order recursion over the posting tree,
-callbacks LIFO when nothing is pending, stable descending priority, snapshot per dispatch, handler kwargs win) plus
-trace monitors (no nesting, dispatches contiguous, every callback exactly once, boolean stops, relay folds).
+callbacks LIFO when nothing is pending, stable descending priority, snapshot per dispatch, handler kwargs win, blocking
+facilities, monitor reports, wait futures; it ends at the first exception) plus trace monitors (no nesting, dispatches
+contiguous, every callback at most once, boolean stops, relay folds).  What the property does not state (what is lost
+after an exception, futures, suffixed replace_handler keeping the old entry) is counted and compared with the model only.
+Session 3: blocking_facility/_min_priority, raising handlers, 'ev.N' / 'ev{cond}' strings in add/replace_handler,
+functools.partial callbacks, monitor_events, wait_for_any_event, translator tie Gen/EventFacts.lean.
 """
 import json
 
@@ -28,34 +32,48 @@ def _gen_event_facts():
 
 GEN = [_gen_event_facts]
 MANIFEST = {
-  "text": "Proof on a Lean model of the event bus (registry with add_handler / remove_handler_by_key / remove_all_handlers_for_event / replace_handler / remove_handler(method) / remove_handler_by_event, _post incl. its fast path, _run_handlers with snapshot / kwargs merge / conditions / boolean and relay handling, _process_event, and process_event_queue transcribed one loop iteration at a time with its stack of deques): for ALL handler programs (handlers and callbacks that post, add, replace and remove handlers - also themselves and their peers while their own event is being dispatched; any priorities, conditions, kwargs) and any history, every handler list stays sorted by descending priority with registration order among equals; the loop refines a single depth-first agenda for any number of iterations (events posted during a dispatch go before everything already waiting; the loop never ends with events or callbacks left), callbacks run only when nothing is pending, last-registered first, each at most once; each dispatch (plain, boolean, relay) calls exactly the handlers of the snapshot taken when it begins whose condition holds on the merged kwargs, in list order, whatever the handlers do to the registry meanwhile (a peer removed or replaced before its turn is still called from the snapshot, one added meanwhile is not, nobody is skipped or called twice), handler kwargs overriding posted ones; replace_handler drops exactly the entries with the same callback (and equal kwargs if given) and places the new entry behind all entries of the same or a higher priority. The model is tied to mpf/core/events.py by a correspondence run on every check: generated programs are executed on the real EventManager of a real machine from boot, a delay callback, an untimed and a timed switch handler, and the observation sequences (handler id, event, ordered merged kwargs; callback id, post serial, kwargs) are compared with the model driver's; an independent recursive reference interpreter and trace monitors (per dispatch: called handlers are entries of the list at dispatch begin, each at most once, in priority order, and every unconditional entry not removed before its turn is called) check the property on the implementation trace.",
-  "note": "Trusted: Lean kernel + {propext, Classical.choice, Quot.sound}; the hand-written model Model/EventBus.lean (validated only by the differential runs); asyncio call_soon eventually running process_event_queue; BoolTemplate condition evaluation is modelled as key == int. Not modelled: blocking_facility/_min_priority, monitor_events/BCP, replace_handler with a condition in the event string, callbacks that are not comparable by value (functools.partial), exceptions raised by handlers, re-entrant calls of process_event_queue, queue events (C02).",
-  "technique": "Lean 4 theorems (simulation of the deque stack by one agenda with a loop-head invariant, induction over steps/op lists) on a hand model + differential correspondence with the real EventManager + independent reference interpreter",
-  "translated": False,
+  "text": "Proof on a Lean model of the event bus (registry with add_handler / remove_handler_by_key / remove_all_handlers_for_event / replace_handler / remove_handler(method) / remove_handler_by_event, callbacks identified by their equality class (bound methods equal by value, functools.partial only equal to itself), _post incl. its fast path, the event monitor and the call_soon bookkeeping, _run_handlers with snapshot / blocking_facility and _min_priority / kwargs merge / conditions / boolean and relay handling / exceptions, _process_event, and process_event_queue transcribed one loop iteration at a time with its stack of deques and with what an exception does to it): for ALL handler programs (handlers and callbacks that post, add, replace and remove handlers - also themselves and their peers while their own event is being dispatched - return _min_priority blocks, raise, resolve futures; any priorities, facilities, conditions, kwargs) and any history, every handler list stays sorted by descending priority with registration order among equals; the loop refines a single depth-first agenda for any number of iterations (events posted during a dispatch go before everything already waiting; the loop never ends with events or callbacks left), callbacks run only when nothing is pending, last-registered first, each at most once; each dispatch (plain, boolean, relay) in which nobody raises calls exactly the handlers of the snapshot taken when it begins that are not blocked by a _min_priority returned earlier in the same dispatch and whose condition holds on the merged kwargs, in list order, whatever the handlers do to the registry meanwhile; if a handler raises, what was delivered is a prefix of that list, the event's callback is not queued and the invocation of process_event_queue ends with its waiting events dropped, event_queue holding what the interrupted dispatch posted and callback_queue untouched (the model follows the code; MPF shuts down on such an exception); _min_priority never suppresses a handler without blocking facility and suppresses one with a facility only below the limit of 'all' or of its facility; with the event monitor on every post is queued and reported once; a wait_for_event future is resolved at most once. Translator tie: Gen/EventFacts.lean is regenerated from the AST of mpf/core/events.py on every check (sort key/direction and append in add_handler, copy iteration in _run_handlers, which end _post / _process_event / process_event_queue push and pop); the model driver runs with these facts and source_facts_canonical proves they are the ones the theorems are stated for, so a change of any of them in the source breaks a proof. Correspondence on every check: generated programs are executed on the real EventManager of a real machine from boot, a delay callback, an untimed and a timed switch handler, and the observation sequences (handler id, event, ordered merged kwargs; callback id, post serial, kwargs; monitor reports; resolved futures; invocations ended by an exception; what is left queued) are compared with the model driver's; an independent recursive reference interpreter and trace monitors check the property on the implementation trace (up to the first exception; after it only the safety monitors and the model comparison apply).",
+  "note": "Trusted: Lean kernel + {propext, Classical.choice, Quot.sound}; the hand-written model Model/EventBus.lean (tied by the generated facts for sort order, copy iteration and deque ends, otherwise validated by the differential runs); translate/event_facts.py (AST pattern matching; anything it does not recognise breaks the tie instead of being skipped); asyncio call_soon eventually running process_event_queue; BoolTemplate condition evaluation is modelled as key == int. Not modelled: re-entrant calls of process_event_queue from a handler (a finding on a tree without the guard: dispatches nest; generation is behind C01_REENTER=1, the model has the guarded behaviour = nothing happens), a _min_priority dict without 'all' (KeyError in the code), _silent posts, cancelled futures, add_async_handler, EventManager.stop, post from another thread, queue events (C02).",
+  "technique": "Lean 4 theorems (simulation of the deque stack by one agenda with a loop-head invariant, induction over steps/op lists/handler lists) on a hand model parameterised by facts translated from the source AST + differential correspondence with the real EventManager + independent reference interpreter",
+  "translated": True,
  }
 RULE = ("a case = program table (handler/callback programs as data: posts of plain/boolean/relay events with/without "
-        "callback and kwargs, add handler, remove by key, remove all, replace_handler, remove_handler(method), "
-        "remove_handler_by_event; 30% of the registered handlers call one of these on their own event while it is being "
-        "dispatched, aimed at themselves / a peer / an absent callback; 25% of registrations share a callback) + 1-5 stimuli, each a list of actions run from a "
-        "context (boot, delay, switch, timed_switch) followed by a drain; events are levelled so every program "
-        "terminates; priorities -3..3 with ties, 30% conditions, handler kwargs colliding with posted ones. "
-        "non-trivial = at least one handler invocation posted a further event or changed the registry during a "
-        "dispatch, or a boolean/relay result changed the flow; distinct = canonical JSON of the case")
+        "callback and kwargs, add handler (optionally with blocking facility, 'ev.N' priority suffix, '{cond}', a "
+        "functools.partial as callback), remove by key, remove all, replace_handler (also with a suffixed event string or a "
+        "fresh partial), remove_handler(method), remove_handler_by_event, raise, return of a _min_priority block; 30% of the "
+        "registered handlers call a registry mutator on their own event while it is being dispatched, aimed at "
+        "themselves / a peer / an absent callback; 25% of registrations share a callback) + 1-5 stimuli, each a list of "
+        "actions (posts, registry actions, wait_for_any_event on 1-3 event strings, event monitor on/off) run from a "
+        "context (boot, delay, switch, timed_switch) followed by a drain; each feature (blocking 45%, exceptions 30%, "
+        "suffixes 45%, partials 40%, waits 35%, monitor 20%) is switched on per case so that it also occurs alone; events "
+        "are levelled so every program terminates; priorities -3..3 with ties, 30% conditions, handler kwargs colliding "
+        "with posted ones. non-trivial = at least one handler invocation posted a further event or changed the registry "
+        "during a dispatch, a boolean/relay result changed the flow, a handler was blocked, raised, a future resolved, a "
+        "post was monitored or a suffixed replace ran; distinct = canonical JSON of the case")
 TRUSTED = [
     "modelled, not verified: asyncio call_soon/call_at eventually run process_event_queue; BoolTemplate evaluation of "
-    "'k==v' conditions (modelled as: key present and equal to the int); Python dict insertion order and list.sort stability",
-    "Model/EventBus.lean is hand-written; tied to mpf/core/events.py (and the drain sites in delays.py, "
-    "switch_controller.py) by correspondence on every run",
+    "'k==v' conditions (modelled as: key present and equal to the int); Python dict insertion order and list.sort stability; "
+    "functools.partial / bound-method equality (equality class `fn` of a callback object)",
+    "Model/EventBus.lean is hand-written; tied to mpf/core/events.py by Gen/EventFacts.lean (sort key/direction, copy "
+    "iteration, deque ends: translate/event_facts.py reads them from the AST on every check) and, with the drain sites in "
+    "delays.py / switch_controller.py, by correspondence on every run",
+    "an exception leaving process_event_queue is caught by the harness where the asyncio loop / DelayManager / "
+    "SwitchController would receive it; what MPF does afterwards (shutdown) is not part of the model",
 ]
-ASSUMPTIONS = ["handlers do not raise and do not call process_event_queue re-entrantly",
-               "no blocking_facility/_min_priority, no BCP event monitor, condition keys never hold bools",
+ASSUMPTIONS = ["handlers do not call process_event_queue re-entrantly (unless C01_REENTER=1: needs the re-entrancy guard)",
+               "a _min_priority dict always has the key 'all' (as every producer in mpf makes it); condition keys never "
+               "hold bools; no _silent posts; futures are not cancelled",
                "queue events are covered by C02"]
 
 EVR = 0      # key id of ev_result
 MPK = 100    # key id of _min_priority (inside that dict: 0 = 'all', n = facility 'f<n>')
 CAP = 250    # handler invocations per case (generator discards bigger cases)
 WPID = 50000  # program ids of the wait handlers of wait_for_any_event (WPID + wid)
-REENTER = False   # generate re-entrant process_event_queue() calls (see the report: a finding on the unchanged tree)
+# generate handlers that call process_event_queue() themselves (re-entrantly).  Off by default: on a tree without a
+# re-entrancy guard in process_event_queue the dispatches nest and callbacks run early (signature nested-dispatch); the
+# repair is commit `fix: make process_event_queue re-entrancy safe` on branch verif-C01-s3.  C01_REENTER=1 turns it on.
+import os
+REENTER = os.environ.get("C01_REENTER", "0") == "1"
 
 
 # a handler record is [key, base priority, kwargs, condition, pid] or [..., ext] with
@@ -767,6 +785,17 @@ class Real:
             else:
                 raise InfraError("bad act %r" % (a,))
 
+    def settle(self):
+        """run the loop until nothing is ready any more: advance_time_and_run(0) runs a bounded number of loop iterations,
+        but every invocation of process_event_queue can schedule the next one with call_soon (this matters only after an
+        exception, when an invocation leaves something behind for the next one)"""
+        loop = self.vm.tc.loop
+        for _ in range(200):
+            if not getattr(loop, "_ready", None):
+                return
+            self.vm.run()
+        raise InfraError("the loop does not settle")
+
     def stimulus(self, st):
         vm, m = self.vm, self.vm.machine
         ctx, acts = st["ctx"], st["acts"]
@@ -774,9 +803,11 @@ class Real:
         if ctx == "boot":
             self.run_acts(acts)
             vm.run()
+            self.settle()
         elif ctx == "delay":
             m.delay.add(ms=125, callback=lambda: self.run_acts(acts))
             vm.advance(0.25)
+            self.settle()
         elif ctx in ("switch", "timed_switch"):
             ms = 0 if ctx == "switch" else 125
             fired = []
@@ -787,9 +818,11 @@ class Real:
             m.switch_controller.add_switch_handler("s_c01", cb, state=1, ms=ms)
             vm.hit_switch("s_c01", 1)
             vm.advance(0.25)
+            self.settle()
             m.switch_controller.remove_switch_handler("s_c01", cb, state=1, ms=ms)
             vm.hit_switch("s_c01", 0)
             vm.advance(0.125)
+            self.settle()
             if len(fired) != 1:
                 raise InfraError("switch context did not fire exactly once: %r" % fired)
         else:
@@ -805,6 +838,7 @@ class Left(list):
     side = ()
     fut_notes = ()
     raised = 0
+    too_big = False
 
 
 def run_real(case):
@@ -868,18 +902,23 @@ def run_real(case):
         BcpInterface.monitor_posted_event = lambda _self, posted: monitor(posted)
         per = []
         crash = None
+        too_big = False
         for st in case["stimuli"]:
             try:
                 per.append(real.stimulus(st))
             except InfraError:
                 raise
             except Exception as e:   # an exception escaping the real code is an observation
-                crash = "%s: %s" % (type(e).__name__, str(e)[:200])
+                if real.calls > 4 * CAP:
+                    too_big = True      # the harness cap (programs that multiply after an exception): not an observation
+                else:
+                    crash = "%s: %s" % (type(e).__name__, str(e)[:200])
                 break
         left = Left([len(vm.machine.events.event_queue), len(vm.machine.events.callback_queue)])
         left.side = list(real.side)
         left.fut_notes = list(real.fut_notes)
         left.raised = len(raised)
+        left.too_big = too_big
         # what an exception left queued must not run during the shutdown of the machine (the spies are gone by then)
         vm.machine.events.monitor_events = False
         vm.machine.events.event_queue.clear()
@@ -1152,6 +1191,8 @@ def oracle(case, per_real, crash, nested, left):
         per_ref, ref = reference(case)
     except TooBig:
         return None
+    if getattr(left, "too_big", False):
+        return None
     if crash is not None:
         return "crash", {"error": crash}
     if nested:
@@ -1274,6 +1315,42 @@ def corpus():
                                                            ["A", 1, H(4, 0, 4)], ["A", 1, H(5, 0, 3, [[1, 1]])]]},
                                   {"ctx": "boot", "acts": [["P", 1, ty, 9, []], ["P", 1, ty, 9, []]]},
                                   {"ctx": "delay", "acts": [["P", 1, ty, None, [[2, 2]]]]}]})
+    X = lambda **kw: kw
+    # blocking: 1 returns {_min_priority: {all: 0, f1: 4}}: 2 (f1, prio 3) is skipped, 3 (f1, prio 4) and 4 (no facility)
+    # are called with the limit in their kwargs; the callback gets it as well; same for a relay event (update) and 'all'
+    for ty in ("n", "r", "b"):
+        cases.append({"progs": {"1": {"acts": [], "ret": ["B", [[0, 0], [1, 4]]]}, "2": {"acts": [], "ret": ["N"]},
+                                "3": {"acts": [], "ret": ["B", [[0, 1]]]}, "9": {"acts": [], "ret": ["N"]}},
+                      "stimuli": [{"ctx": "boot", "acts": [["A", 1, H(1, 5, 1)], ["A", 1, H(2, 3, 2) + [X(fac=1)]],
+                                                           ["A", 1, H(3, 4, 3) + [X(fac=1)]], ["A", 1, H(4, 0, 2)],
+                                                           ["A", 1, H(5, 0, 2) + [X(fac=2)]], ["A", 1, H(6, 1, 2) + [X(fac=2)]]]},
+                                  {"ctx": "boot", "acts": [["P", 1, ty, 9, [[1, 1]]], ["P", 1, ty, None, []]]}]})
+    # exception: 2 raises after posting: 3 is not called, callback 9 of that post never runs, the waiting event 2 is lost,
+    # the event posted before the raise stays queued until the next invocation; callback 8 (queued earlier) survives
+    cases.append({"progs": {"1": {"acts": [], "ret": ["N"]}, "2": {"acts": [["P", 3, "n", None, []], ["Z"], ["P", 3, "n", None, []]], "ret": ["N"]},
+                            "8": {"acts": [], "ret": ["N"]}, "9": {"acts": [], "ret": ["N"]}},
+                  "stimuli": [{"ctx": "boot", "acts": [["A", 1, H(1, 2, 1)], ["A", 1, H(2, 1, 2)], ["A", 1, H(3, 0, 1)],
+                                                       ["A", 2, H(4, 0, 1)], ["A", 3, H(5, 0, 1)], ["A", 4, H(6, 0, 1)]]},
+                              {"ctx": "boot", "acts": [["P", 4, "n", 8, []], ["P", 1, "n", 9, []], ["P", 2, "n", None, []]]},
+                              {"ctx": "delay", "acts": [["P", 2, "n", None, []]]},
+                              {"ctx": "timed_switch", "acts": [["P", 1, "n", 9, []]]}]})
+    # event strings: 'ev1.2' adds 2 to the priority; replace_handler('ev1.1', ...) / ('ev1{k1==1}', ...) removes nothing;
+    # a partial only equals itself: replace with a new partial keeps the old entry, remove with the stored one works
+    cases.append({"progs": {"1": {"acts": [], "ret": ["N"]}, "2": {"acts": [], "ret": ["N"]}},
+                  "stimuli": [{"ctx": "boot", "acts": [["A", 1, H(1, 0, 1) + [X(psuf=2)]], ["A", 1, H(2, 1, 1)],
+                                                       ["A", 1, H(3, 0, 2) + [X(fn=10003)]], ["P", 1, "n", None, [[1, 1]]]]},
+                              {"ctx": "boot", "acts": [["H", 1, H(4, 0, 1) + [X(psuf=1)]], ["H", 1, H(5, 0, 1, None, [1, 1])],
+                                                       ["H", 1, H(6, 3, 2) + [X(fn=10006)]], ["P", 1, "n", None, [[1, 1]]]]},
+                              {"ctx": "switch", "acts": [["E", 1, 10003], ["M", 10099], ["H", 1, H(7, -1, 1)],
+                                                         ["P", 1, "n", None, [[1, 1]]]]}]})
+    # monitor: every post is reported and queued, also the one nobody listens to; wait_for_any_event on two strings of one
+    # event and one of another: the first post resolves (second handler of the same snapshot: InvalidStateError)
+    cases.append({"progs": {"1": {"acts": [["P", 3, "n", None, [[2, 2]]]], "ret": ["N"]}, "9": {"acts": [], "ret": ["N"]}},
+                  "stimuli": [{"ctx": "boot", "acts": [["A", 1, H(1, 0, 1)], ["W", 1, [[2, 2, None, None], [1, 3, [1, 1], None]]],
+                                                       ["W", 2, [[2, 4, None, None], [2, 5, None, 1]]]]},
+                              {"ctx": "boot", "acts": [["O", 1], ["P", 1, "n", 9, [[1, 1]]], ["P", 3, "b", None, []]]},
+                              {"ctx": "delay", "acts": [["P", 1, "n", None, [[1, 1]]], ["O", 0], ["P", 3, "n", None, []]]},
+                              {"ctx": "boot", "acts": [["P", 2, "r", 9, [[3, 3]]]]}]})
     return cases
 
 
@@ -1302,6 +1379,9 @@ def one_case(ctx, model, case, sample=True):
         small = shrink(case, res[0])
         r2, _ = check_case(small)
         ctx.fail(res[0], small, (r2 or res)[1])
+        return
+    if getattr(left, "too_big", False):
+        ctx.count("skipped_too_big")
         return
     # observations beyond the property's text: counted, compared with the model, never a failure
     for note in getattr(left, "fut_notes", ()):
@@ -1343,9 +1423,12 @@ def run(ctx):
             one_case(ctx, model, case)
         if ctx.tier == "thorough" and not ctx.search:
             small_scope(ctx, model)
+        from harness.common import mpfleak
         for i in range(ctx.n(700, 9000)):
             r = ctx.rng("case", i)
             one_case(ctx, model, Gen(r).case())
+            if i % 200 == 199:
+                mpfleak.release()      # MPF's class-level caches keep every booted machine alive (0.8 MB each)
             if len(ctx.failures) >= 3:
                 break
     finally:
